@@ -107,6 +107,14 @@ func (e *Engine) vocab(short string) (handler, bool) {
 			}
 			t := e.nondetInt("c", IntType{64, true})
 			e.assume(&Term{Sort: SBool, S: fmt.Sprintf("(and (<= 0 %s) (< %s %d))", t.S, t.S, n)})
+			if e.ShardN > 1 && !e.shardUsed {
+				// the first vCase of a path is split over the shards of this harness (parallel jobs)
+				e.shardUsed = true
+				if int(n) < e.ShardN && e.ShardIdx >= int(n) {
+					panic(pathAbort{"shard empty"})
+				}
+				e.assume(&Term{Sort: SBool, S: fmt.Sprintf("(= (mod %s %d) %d)", t.S, e.ShardN, e.ShardIdx)})
+			}
 			return IntC(int64(e.concInt(t, int(n), "vCase")))
 		}, true
 	case "vAssume":
@@ -251,6 +259,44 @@ func (e *Engine) intrinsic(name string, fn *ssa.Function) (handler, bool) {
 				unsup("StringCast(symbolic)")
 			}
 			return []value{structure{"\x00" + s, (*value)(nil), IntC(0)}}
+		}, true
+	case "net/netip.AddrFrom4", "net/netip.AddrFrom16":
+		// minimal netip model: a valid Addr is one whose zone handle is non-zero (IsValid compares z with
+		// the zero handle); the address bytes are kept in addr.lo/hi the way netip does for IPv4
+		return func(c *frame, f *ssa.Function, a []value) value {
+			rt := f.Signature.Results().At(0).Type()
+			st := zero(rt).(structure)
+			ut := rt.Underlying().(*types.Struct)
+			arr := a[0].(array)
+			for i := 0; i < ut.NumFields(); i++ {
+				switch ut.Field(i).Name() {
+				case "z":
+					h := st[i].(structure)
+					dummy := new(value)
+					*dummy = IntC(int64(len(arr)))
+					if e.netipZ == nil {
+						e.netipZ = map[int]*value{}
+					}
+					if p, ok := e.netipZ[len(arr)]; ok {
+						dummy = p
+					} else {
+						e.netipZ[len(arr)] = dummy
+					}
+					h[0] = dummy
+				case "addr":
+					u := st[i].(structure)
+					lo := IntC(0)
+					n := len(arr)
+					for k := 0; k < 8 && k < n; k++ {
+						lo = AddX(lo, MulX(arr[n-1-k].(*Term), BigC(pow2(uint(8*k)))))
+					}
+					if n == 4 {
+						lo = AddX(lo, BigC(new(big.Int).Lsh(big.NewInt(0xffff), 32)))
+					}
+					u[len(u)-1] = lo
+				}
+			}
+			return st
 		}, true
 	case "errors.New":
 		return func(c *frame, f *ssa.Function, a []value) value { return e.newError(a[0], iface{}) }, true
